@@ -968,6 +968,24 @@ func New(state *dataflow.AnalyzerState) *Dump {
 				}
 				d.Lines = append(d.Lines, fmt.Sprintf("pt %d %d %s", i, x.r, s))
 			}
+			if ip, ok := pa.IndirectQueries[x.v]; ok {
+				seen := map[string]bool{}
+				var ls []string
+				for _, l := range ip.PointsTo().Labels() {
+					t := d.Label(l.Value(), l.Path(), l.String())
+					if !seen[t] {
+						seen[t] = true
+						ls = append(ls, t)
+					}
+				}
+				sort.Strings(ls)
+				t := "-"
+				if len(ls) > 0 {
+					t = strings.Join(ls, ";")
+				}
+				d.Lines = append(d.Lines, fmt.Sprintf("ipt %d %d %s", i, x.r, t))
+				d.Kinds["indirect-query"]++
+			}
 		}
 		// every pointer-like operand of a reachable function must have been queried
 		for _, b := range fn.Blocks {
